@@ -29,8 +29,18 @@ def gen_case(rng, tier, avoid):
     lfi = spec.logical_file()
     spec.origin(lfi)
     rows = rng.choice([1, 2, 4, 7, 12])
-    fh, chans, recs, _ = gen.frame_block(spec, lfi, rng, rows=rows, n_ch=rng.choice([1, 2, 3]), max_width=rng.choice([3, 9, 30]),
-                                         index=False)
+    r_b = rng.random()
+    if r_b < 0.05:
+        rows = rng.choice([127, 128, 129, 200])                  # frame numbers across the 1/2-byte UVARI boundary
+    elif r_b < 0.0515:
+        rows = rng.choice([16383, 16384, 16385])                 # ... and the 2/4-byte one
+    fh, chans, recs, _ = gen.frame_block(spec, lfi, rng, rows=rows, n_ch=rng.choice([1, 2, 3]),
+                                         max_width=rng.choice([3, 9, 30]) if rows < 1000 else 2, index=False)
+    if rows <= 12 and rng.random() < 0.04:
+        # a wide channel: DIMENSION / ELEMENT-LIMIT (UVARI values) at 127/128/255/256 and, rarely, 16383/16384/16385
+        wide = rng.choice([127, 128, 129, 255, 256, 257]) if rng.random() < 0.9 else rng.choice([16383, 16384, 16385])
+        cw = spec.channel(lfi, 'WIDE', {'dtype': '|u1', 'shape': [rows, wide], 'kind': 'rand', 'seed': rng.randrange(1 << 30)})
+        spec.frame(lfi, 'FRW', [cw])
     user = None
     for op in spec.ops:
         if op.get('op') == 'add' and op['kind'] == 'channel':
